@@ -43,6 +43,7 @@ struct St {
     skipped_known: usize,
     struct_cases: usize,
     max_struct_cases: usize,
+    enc_cases: usize,
 }
 
 fn judge(out: &mut Out, st: &mut St, cfg: &Cfg, kind: &str, pcm: &[i32], file: &[u8], constant: bool) {
@@ -57,6 +58,10 @@ fn judge(out: &mut Out, st: &mut St, cfg: &Cfg, kind: &str, pcm: &[i32], file: &
     let ch = cfg.ch as usize;
     if st.struct_cases < st.max_struct_cases {
         for line in encoder_struct_cases(file, 2, 2500) { st.struct_cases += 1; out.case(line); }
+    }
+    if st.enc_cases < st.max_struct_cases && file.len() < 60000 && pcm.len() <= 24000 {
+        st.enc_cases += 1;
+        out.case(enc_stream_case(file, pcm, cfg.json()));
     }
     for (k, f) in frames.iter().enumerate() {
         st.frames += 1;
@@ -111,7 +116,7 @@ fn main() {
     let mut rng = Rng::new(seed, 0xC19);
     let known = probe_known();
     clear_panic_loc();
-    let mut st = St { files: 0, frames: 0, const_frames: 0, worst_ratio_permille: 0, worst_const: 0, assignments: Default::default(), cases: 0, max_cases: scale(if thorough { 4000 } else { 500 }), verbatim_subframes: 0, subframes: 0, skipped_known: 0, struct_cases: 0, max_struct_cases: scale(if thorough { 3000 } else { 400 }) };
+    let mut st = St { files: 0, frames: 0, const_frames: 0, worst_ratio_permille: 0, worst_const: 0, assignments: Default::default(), cases: 0, max_cases: scale(if thorough { 4000 } else { 500 }), verbatim_subframes: 0, subframes: 0, skipped_known: 0, struct_cases: 0, enc_cases: 0, max_struct_cases: scale(if thorough { 3000 } else { 400 }) };
     // adversarial shapes: full-scale white noise, alternating extremes, Rice mis-estimate
     // (tiny values with rare full-scale outliers), steps, i32::MIN-adjacent values
     let adversarial = ["noise", "fullscale", "extremes", "outliers", "sparse", "steps", "min_adjacent", "impulse", "alt_small", "stereo_opposite", "wasted"];
